@@ -146,7 +146,7 @@ class Builder:
         objs = self._compile_many(variant, hs, out + '.objs', list(extra_cflags) + self._defs())
         ld = list(v['ldflags']) + list(extra_ldflags)
         if wrap_alloc:
-            ld += ['-Wl,--wrap=malloc,--wrap=calloc,--wrap=realloc,--wrap=free,--wrap=strdup']
+            ld += ['-Wl,--wrap=malloc,--wrap=calloc,--wrap=realloc,--wrap=free,--wrap=strdup,--wrap=fread,--wrap=fseek,--wrap=ftell']
         _run([v['cc']] + v['cflags'] + objs + self.lib(variant) + ['-o', out] + ld + ['-lpthread'])
         return out
 
@@ -161,7 +161,7 @@ class Builder:
         out = os.path.join(outdir, name)
         ld = list(v['ldflags'])
         if wrap_alloc:
-            ld += ['-Wl,--wrap=malloc,--wrap=calloc,--wrap=realloc,--wrap=free,--wrap=strdup']
+            ld += ['-Wl,--wrap=malloc,--wrap=calloc,--wrap=realloc,--wrap=free,--wrap=strdup,--wrap=fread,--wrap=fseek,--wrap=ftell']
         _run([v['cc']] + v['cflags'] + objs + self.lib(variant) + ['-o', out] + ld)
         return out
 
